@@ -452,6 +452,12 @@ func genLimitCfg(t *rapid.T, algos []string, allowWrappers bool) LimitCfg {
 		c.Initial = rapid.IntRange(1, 300).Draw(t, "initial")
 		c.Backoff = rapid.OneOf(rapid.SampledFrom([]float64{0.9, 0.5, 1, 0.99, 0.1}), rapid.Float64Range(0.01, 1)).Draw(t, "backoff")
 		c.IncreaseBy = rapid.IntRange(1, 50).Draw(t, "incr")
+		if rapid.IntRange(0, 5).Draw(t, "noisyBackoff") == 0 && len(c03Noisy) > 0 {
+			// a decimal back-off ratio and a limit whose product in IEEE double lies a hair below / above an integer
+			// (100 x 0.29 = 28.999999999999996): the documented floor(limit x ratio) of that double is what counts
+			np := c03Noisy[rapid.IntRange(0, len(c03Noisy)-1).Draw(t, "noisyPair")]
+			c.Backoff, c.Initial = np.F, np.L
+		}
 	case "vegas":
 		c.Max = rapid.OneOf(rapid.IntRange(1, 30), rapid.IntRange(1, 3000), genTableEdge()).Draw(t, "max")
 		c.Initial = rapid.OneOf(rapid.IntRange(1, c.Max), rapid.IntRange(1, 3000), genTableEdge()).Draw(t, "initial")
